@@ -126,11 +126,11 @@ func inPkgs(fn *ssa.Function, pkgs ...string) bool {
 func init() {
 	register(&Property{
 		ID:    "C02",
-		Rules: []string{"C02-R1", "C02-R2", "C02-R3", "C02-R4", "C02-R5", "C02-R6", "C02-R7", "C02-R8", "C06-R1", "C01-R1", "C01-R4", "C01-R5"},
+		Rules: []string{"C02-R1", "C02-R2", "C02-R3", "C02-R4", "C02-R5", "C02-R6", "C02-R7", "C02-R8", "C02-R9", "C15-R1", "C06-R1", "C01-R1", "C01-R4", "C01-R5"},
 		Explain: "Decides the accounting shape of the register: C02-R1 at the register's expansion sites (template path via GetReportItem, the old reporter, the single-element and group-by-food forms) found → quantity x each resolved element under the element's name, not found → the food itself with its own quantity, and the same pair goes to the day's accumulator in the same branch; " +
 			"C02-R2 Accumulator.Add over sign(val) x exists routes negative values to the Negative slot and others to Positive, += for an existing key; " +
 			"C02-R3 the day's totals are listed through collect-then-sort on the element name; C02-R4 the constant register and summary templates are well-typed against the report item they are executed with (field paths exist, functions and arities match, numbers go through formatValue); C02-R5 NewLogNodeFromElements merges repeated foods of a day by name in first-appearance position; " +
-			"C02-R6 the register and summary reporters keep no state across days (a day's totals list only that day's elements): Process is streaming or accumulating, never both, and writes no package-level variable; C02-R7 every printf format of the register packages is built from constants; C02-R8 what goes into the day's accumulator does not depend on totals-only/no-totals (the switches gate printed lines only); " +
+			"C02-R6 the register and summary reporters keep no state across days (a day's totals list only that day's elements): Process is streaming or accumulating, never both, and writes no package-level variable; C02-R7 every printf format of the register packages is built from constants; C02-R9 the totals block is guarded by an emptiness test of the day's accumulator; C15-R1 (shared) the selectable templates show the same fields (the sum column is the sum in each of them); C02-R8 what goes into the day's accumulator does not depend on totals-only/no-totals (the switches gate printed lines only); " +
 			"C01-R1/R4/R5 (shared with C01) the resolved element lists the quantities are multiplied with are built by merge-by-name only, so each resolved element appears once.",
 		NotDecided: "the arithmetic, the exact text layout, that every selected day appears in file order (C06/C12)",
 		Run: func(c *core.Ctx) {
@@ -145,6 +145,8 @@ func init() {
 				return inPkgs(fn, registerPkg, reporterPkg, core.CmdPath+"/internal/summary")
 			})
 			ruleTotalsGates(c, "C02-R8")
+			ruleEmptinessTests(c, "C02-R9")
+			ruleTemplates(c, "", "C15-R1", "")
 			ruleC06R1(c) // "every selected day": the interval predicate is inclusive at both ends for equal instants
 			ruleReporterDiscipline(c, "C02-R6", registerPkg, core.CmdPath+"/internal/summary")
 			if fn := c.P.LookupFunc(core.LibPath, "NewLogNodeFromElements"); requireAnchor(c, "C02-R5", "NewLogNodeFromElements", fn != nil) {
